@@ -19,7 +19,8 @@ TEXT = ("Order-taint analysis over the whole crate. D1: every iteration whose or
         "derives from digest_object of that same obj, cache keys are digests (array cache: C16/E3), and no call that "
         "writes replica state or storage is guarded by a query of an LRU cache (a hit is not evidence that the value is "
         "staged or stored). Does not decide "
-        "equality of outcomes across runs as such - only the absence of order / capacity dependence.")
+        "equality of outcomes across runs as such - only the absence of order / capacity dependence."
+        " D3c': a function that empties the object index empties the object cache with it.")
 TECHNIQUE = 'static analysis over rustc MIR: order-taint from unordered iterations to positional sinks, commutativity of effects in rayon regions, cache transparency (content-addressed keys, no cache query guarding a state change)'
 TRUSTED = ["rustc nightly MIR", "BTreeMap/BTreeSet iterate in key order", "C05/W3: Revision's order is total", "C10/H1: every copy of an object is hash-verified"]
 
